@@ -221,3 +221,116 @@ func init() {
 		return "", fmt.Errorf("captured %q is not a known http status", m[1])
 	}
 }
+
+// ---- C24 ------------------------------------------------------------------------------------------------
+
+func init() {
+	// auth_script: the order in which an ingest entry point checks, replaces and re-assigns the API key.
+	// Walks the function body in source order and emits one token per recognised statement:
+	//   "accept"            X.IsAccepted(k, id)
+	//   "replace_strict"    v, err := X.GetReplaceKey(k, id)      (the error is looked at)
+	//   "replace_lenient"   v, _ := X.GetReplaceKey(k, id)       (the error is discarded)
+	//   "assign"            ri.ApiKey = v   |  req.Header.Set(types.APIKeyHeader, v)
+	//   "validate"          ri.ValidateTracesHeaders() | ri.ValidateLogsHeaders()
+	//   "translate"         husky translation of the body with ri (re-validates ri.ApiKey), or dec(in)
+	// Consecutive duplicates are collapsed (the same call in the arms of a content-type switch).
+	customKinds["auth_script"] = func(it Item) (string, error) {
+		p, err := loadPkg(it.Pkg)
+		if err != nil {
+			return "", err
+		}
+		fd := findFunc(p, it.Func)
+		if fd == nil {
+			return "", fmt.Errorf("function %s not found in %s", it.Func, it.Pkg)
+		}
+		var toks []string
+		push := func(t string) {
+			if n := len(toks); n == 0 || toks[n-1] != t {
+				toks = append(toks, t)
+			}
+		}
+		callTok := func(ce *ast.CallExpr, lenient bool) {
+			fn := nodeText(p, ce.Fun)
+			switch {
+			case strings.HasSuffix(fn, ".IsAccepted"):
+				push("accept")
+			case strings.HasSuffix(fn, ".GetReplaceKey"):
+				if lenient {
+					push("replace_lenient")
+				} else {
+					push("replace_strict")
+				}
+			case strings.HasSuffix(fn, ".ValidateTracesHeaders"), strings.HasSuffix(fn, ".ValidateLogsHeaders"):
+				push("validate")
+			case strings.HasSuffix(fn, ".TranslateLogsRequestFromReader"), strings.HasSuffix(fn, ".TranslateLogsRequest"),
+				strings.HasSuffix(fn, ".TranslateTraceRequestFromReaderSizedWithMsgp"), strings.HasSuffix(fn, ".processOTLPRequestWithMsgp"),
+				fn == "dec":
+				push("translate")
+			case strings.HasSuffix(fn, ".Header.Set") && len(ce.Args) == 2 && strings.HasSuffix(nodeText(p, ce.Args[0]), "APIKeyHeader"):
+				push("assign")
+			}
+		}
+		ast.Inspect(fd.Body, func(n ast.Node) bool {
+			switch x := n.(type) {
+			case *ast.AssignStmt:
+				if len(x.Lhs) == 1 && nodeText(p, x.Lhs[0]) == "ri.ApiKey" {
+					push("assign")
+					return false
+				}
+				lenient := len(x.Lhs) == 2 && nodeText(p, x.Lhs[1]) == "_"
+				for _, e := range x.Rhs {
+					if ce, ok := e.(*ast.CallExpr); ok {
+						callTok(ce, lenient)
+					}
+				}
+				return false
+			case *ast.CallExpr:
+				callTok(x, false)
+			}
+			return true
+		})
+		return fmt.Sprintf("Definition %s : list string := %s.", it.Coq, coqStrList(toks)), nil
+	}
+
+	// switch_arm_bodies: the arms of the (first) switch of a function as (labels joined by ",", body text).
+	customKinds["switch_arm_bodies"] = func(it Item) (string, error) {
+		p, err := loadPkg(it.Pkg)
+		if err != nil {
+			return "", err
+		}
+		fd := findFunc(p, it.Func)
+		if fd == nil {
+			return "", fmt.Errorf("function %s not found in %s", it.Func, it.Pkg)
+		}
+		ws := regexp.MustCompile(`\s+`)
+		var rows []string
+		done := false
+		ast.Inspect(fd.Body, func(n ast.Node) bool {
+			sw, ok := n.(*ast.SwitchStmt)
+			if !ok || done {
+				return !done
+			}
+			done = true
+			for _, c := range sw.Body.List {
+				cc := c.(*ast.CaseClause)
+				var labels []string
+				for _, e := range cc.List {
+					labels = append(labels, unquote(nodeText(p, e)))
+				}
+				if len(cc.List) == 0 {
+					labels = []string{"default"}
+				}
+				var body []string
+				for _, s := range cc.Body {
+					body = append(body, ws.ReplaceAllString(nodeText(p, s), " "))
+				}
+				rows = append(rows, fmt.Sprintf("(%s, %s)", coqStr(strings.Join(labels, ",")), coqStr(strings.Join(body, "; "))))
+			}
+			return false
+		})
+		if len(rows) == 0 {
+			return "", fmt.Errorf("no switch in %s", it.Func)
+		}
+		return fmt.Sprintf("Definition %s : list (string * string) :=\n  [%s].", it.Coq, strings.Join(rows, ";\n   ")), nil
+	}
+}
